@@ -236,7 +236,23 @@ class CFG:
             n = self._new("stmt", st, st, note="def")
             self._link(preds, n)
             return [(n, "next")]
-        if isinstance(st, (ast.Match, ast.AsyncFor, ast.AsyncWith)) or type(st).__name__ == "TryStar":
+        if isinstance(st, ast.Match):
+            # a chain of tests, one per case; a case whose pattern is irrefutable (wildcard / bare capture without guard) has no false edge
+            subj = self._new("stmt", ast.Expr(value=st.subject, lineno=st.lineno, col_offset=st.col_offset), st, note="match-subject")
+            self._link(preds, subj)
+            self._maybe_raise(subj, st.subject, ctx)
+            cur = [(subj, "next")]
+            outs = []
+            for case in st.cases:
+                t = self._new("test", case.guard if case.guard is not None else ast.Constant(value=True), st, note=f"case {ast.unparse(case.pattern)}")
+                self._link(cur, t)
+                if case.guard is not None:
+                    self._maybe_raise(t, case.guard, ctx)
+                outs += self._block(case.body, [(t, "T")], ctx)
+                irrefutable = case.guard is None and isinstance(case.pattern, ast.MatchAs) and case.pattern.pattern is None
+                cur = [] if irrefutable else [(t, "F")]
+            return outs + cur
+        if isinstance(st, (ast.AsyncFor, ast.AsyncWith)) or type(st).__name__ == "TryStar":
             raise AnchorError(f"unsupported statement kind {type(st).__name__} at line {st.lineno}")
         # simple statement
         n = self._new("stmt", st, st)
